@@ -58,7 +58,8 @@ NoTx == [ acc  |-> <<>>,                                  \* accepted recipients
           st   |-> [t \in AllTargets |-> [r \in AllRcpts |-> "none"]],
           com  |-> [t \in AllTargets |-> "none"] ]
 
-\* base: permits of each scope held by other sessions for the whole conversation
+\* base: permits of each scope held by other sessions (cfg.hold: for the whole conversation;
+\* ObsEnv: taken and returned in between)
 ObsInit(lmtp, base) ==
   [ lmtp  |-> lmtp,
     base  |-> base,
@@ -152,6 +153,12 @@ ObsEnd(o0, open, all, ip, src) ==
   LET o  == Settle(o0)
       o1 == V(o, \A t \in AllTargets : open[t] = 0, "DeliveryOpenAtSessionEnd")
   IN V(o1, all = o.base /\ ip = o.base /\ src = o.base, "PermitHeldAtSessionEnd")
+
+\* an event of the environment at the limits group (Session!EnvStep): another session takes /
+\* returns one permit of every scope; time passing and other keys coming and going change nothing
+ObsEnv(o, k) == CASE k = "peer+" -> [o EXCEPT !.base = @ + 1]
+                  [] k = "peer-" -> [o EXCEPT !.base = IF @ > 0 THEN @ - 1 ELSE 0]
+                  [] OTHER -> o
 
 ObsCrash(o) == V(o, FALSE, "ServerCrash")
 =============================================================================
